@@ -408,6 +408,23 @@ def run(ctx):
                 sc["trig"] = 1
             if rng.random() < 0.6:
                 sc["throttle"] = dict(bucket=rng.choice([1, 2, 3]), k=rng.choice([50, 300, 1000]), frame_ms=rng.choice([100, 500, 1000]))
+            if i % 3 == 0:
+                # sustained motion through a slowly refilling throttle: the file is cut when the bucket is empty and
+                # restarted in the middle of the same trigger; the scene level (hence background and threshold) drifts
+                c["Edge"] = min(c["Edge"], 1); c["Delta"] = 30; c["Cnt"] = 1
+                sc.update(preview_secs=rng.choice([0, 1]), min_secs=1, max_secs=rng.choice([20, 40]), trig=1)
+                fr = rng.choice([400, 500])
+                sc["throttle"] = dict(bucket=rng.choice([1, 2]), k=int(fr * rng.choice([1.4, 1.8, 2.5])), frame_ms=fr)
+                steps, L = [], c["T"] + 500
+                for k in range(rng.randint(50, 80)):
+                    if k % 9 == 8:
+                        L += rng.choice([-40, 25, 60])
+                    pix = [[L for x in range(c["W"])] for y in range(c["H"])]
+                    if k % 2 == 1 and k > 3:
+                        for (y, x) in interior(c["W"], c["H"], c["Edge"])[:2]:
+                            pix[y][x] = L + 1000
+                    steps.append(dict(a="frame", pix=pix, ffcAge=60000))
+                sc["steps"] = steps
             cs.append(sc)
         binm = ctx.go_test_build("./motion", "motion.test")
         inp, outp = ctx.path("run", "chain.json"), ctx.path("run", "chain.ndjson")
